@@ -55,6 +55,8 @@ class WorldGen:
         for o in range(1, rnd.randint(1, 4) + 1):
             objs[o] = rnd.choice(list(cb))
             L.append("inst|%d|%d" % (o, objs[o]))
+            if rnd.random() < P.get("idecl", 0.15):
+                L.append("idecl|%d|%d" % (o, rnd.randint(1, n)))
         # registries: a chain (optionally with a side registry for re-basing)
         nr = rnd.randint(*P.get("nregs", (2, 3)))
         rb = {}
